@@ -161,6 +161,23 @@ func (g *Gen) fill(kind string, p *Program) Op {
 			}
 			op.S = []string{f}
 		}
+	case "ScanState":
+		tok := g.Literal(true)
+		lead := strings.Repeat(" ", g.R.N(3))
+		in := lead + tok
+		if g.R.P(1, 3) {
+			in += " " + g.ValidLiteral(true, false)
+		}
+		errAt := int64(-1)
+		if g.R.P(1, 2) {
+			errAt = int64(g.R.N(len(lead) + len(tok) + 2))
+		}
+		verb := int64("eEfFgGv"[g.R.N(7)])
+		if g.R.P(1, 20) {
+			verb = int64("dsxq"[g.R.N(4)])
+		}
+		op.B = []string{hx([]byte(in))}
+		op.I = []int64{verb, errAt, g.slot(nRecv)}
 	case "TextRT":
 		op.D = []string{d()}
 		op.I = []int64{int64(g.R.N(len(textProducers))), int64(g.R.N(len(textConsumers)))}
@@ -455,7 +472,7 @@ var p20Kinds = []string{
 	"New", "Ldexp", "Frexp", "FromFloat64", "FromFloat32", "Float64", "Float32",
 	"FromInt64", "FromInt32", "FromUint64", "FromUint32", "FromInt", "FromRat", "FromFloat",
 	"Int", "Rat", "Float", "Int64", "Int32", "Uint64", "Uint32",
-	"MarshalBinary", "UnmarshalBinary", "Parse", "MustParse", "UnmarshalText", "Sscan",
+	"MarshalBinary", "UnmarshalBinary", "Parse", "MustParse", "UnmarshalText", "Sscan", "ScanState",
 	"String", "MarshalText", "TextRT", "FormatFn", "AppendFn", "AppendM", "Sprintf", "FormatState",
 	"MarshalJSON", "UnmarshalJSON", "JSONRT", "JSONDoc", "Decompose", "ComposeRow", "Compose",
 }
